@@ -211,7 +211,13 @@ def run(tier):
     else:
         q = cfgx.qset()
         cfgs = list(dict.fromkeys(q + cfgx.neighbours(q[0]) + cfgx.neighbours(cfgx.Cfg('debian', 3, '3.0', 'enforce', True))))
-    ex = cfgx.Explorer()
+    # a synthetic profile next to the shipped ones (in the harness' snapshot only): text that merely LOOKS like what an
+    # option rewrites -- a mount source called mqueue, a path through abi/4.0, `rux,` inside an alternation or a target,
+    # a qualifier rule block
+    synth = ('abi <abi/4.0>,\n\ninclude <tunables/global>\n\n@{exec_path} = @{bin}/verif-c18\nprofile verif-c18 @{exec_path} {\n  include <abstractions/base>\n\n'
+             '  mount fstype=mqueue options=(rw nodev noexec nosuid)   mqueue -> /dev/mqueue/,\n\n  @{exec_path} mr,\n  @{bin}/{crux,prt-get} rPx,\n  @{bin}/pkgmk rPx -> crux,\n\n'
+             '  /etc/apparmor.d/abi/4.0 r,\n  /etc/{crux,pkgadd.conf} r,\n\n  owner {\n    /srv/verif-c18/own r,\n  }\n\n  include if exists <local/verif-c18>\n}\n')
+    ex = cfgx.Explorer(extra_src={'apparmor.d/groups/apps/verif-c18': synth})
     try:
         trees = ex.build_all(cfgs)
     finally:
